@@ -12,7 +12,7 @@ class Body:
 
 
 class Call:
-    __slots__ = ('block', 'callee', 'line', 'from_expansion', 'resolved', 'strs', 'gen', 'callee_unsafe', 'arg_fns')
+    __slots__ = ('block', 'callee', 'line', 'from_expansion', 'resolved', 'strs', 'gen', 'callee_unsafe', 'arg_fns', 'macros')
 
 
 class Mir:
@@ -52,6 +52,7 @@ class Mir:
                     k.block, ci, k.line, k.from_expansion, k.resolved, k.strs, k.gen = c[:7]
                     k.callee_unsafe = c[7] if len(c) > 7 else False
                     k.arg_fns = c[8] if len(c) > 8 else []
+                    k.macros = (c[9].split(',') if c[9] else []) if len(c) > 9 else []
                     k.callee = fns[ci] if ci >= 0 else None
                     o.calls.append(k)
                 self.bodies[o.name] = o
